@@ -36,6 +36,7 @@ var specs = []fnSpec{
 	{"FileMetadata.validate", "validate"},
 	{"DataBlockMetadata.OnDiskSize", "OnDiskSize"},
 	{"evaluatePrefilterCondition", "evaluatePrefilterCondition"},
+	{"planBlockFilterReads", "planBlockFilterReads"},
 }
 
 type tr struct {
@@ -628,6 +629,51 @@ func (t *tr) stmts(list []ast.Stmt, rest string) string {
 			die("range form at %s", t.pos(v))
 		}
 		t.env[name] = elemTy
+		if t.errFunc && len(t.resTypes) > 1 {
+			// multi-result error function: a loop of error checks (each returning the same error tuple) and
+			// boolean latches `if cond { v = true }` on variables declared outside the loop
+			var checks, latches []string
+			errRet := ""
+			for _, st := range body {
+				is, ok := st.(*ast.IfStmt)
+				if !ok || is.Else != nil || len(is.Body.List) != 1 {
+					die("loop body statement at %s", t.pos(st))
+				}
+				if is.Init != nil {
+					as, ok := is.Init.(*ast.AssignStmt)
+					be, ok2 := is.Cond.(*ast.BinaryExpr)
+					rs, ok3 := is.Body.List[0].(*ast.ReturnStmt)
+					if !ok || !ok2 || !ok3 || be.Op != token.NEQ || !isNilIdent(be.Y) || len(as.Lhs) != 1 || len(as.Rhs) != 1 {
+						die("loop error check at %s", t.pos(st))
+					}
+					nm := as.Lhs[0].(*ast.Ident).Name
+					saved := t.env[nm]
+					t.env[nm] = "error!"
+					r := t.retExpr(rs)
+					t.env[nm] = saved
+					if errRet != "" && errRet != r {
+						die("loop error checks return different values at %s", t.pos(st))
+					}
+					errRet = r
+					checks = append(checks, t.expr(as.Rhs[0]))
+					continue
+				}
+				as, ok := is.Body.List[0].(*ast.AssignStmt)
+				if !ok || as.Tok != token.ASSIGN || len(as.Lhs) != 1 || len(as.Rhs) != 1 {
+					die("loop latch at %s", t.pos(st))
+				}
+				lhs, ok := as.Lhs[0].(*ast.Ident)
+				rhs, ok2 := as.Rhs[0].(*ast.Ident)
+				if !ok || !ok2 || rhs.Name != "true" || t.env[lhs.Name] != "bool" || mentions(is.Cond, lhs.Name) {
+					die("loop latch form at %s", t.pos(st))
+				}
+				latches = append(latches, "let "+li(lhs.Name)+" := "+li(lhs.Name)+" || ("+xs+").any (fun "+name+" => "+t.expr(is.Cond)+")\n")
+			}
+			if len(checks) == 0 {
+				die("loop without error checks at %s", t.pos(v))
+			}
+			return "if (" + xs + ").all (fun " + name + " => " + strings.Join(checks, " && ") + ") then\n" + indent(strings.Join(latches, "")+tail()) + "\nelse\n" + indent(errRet)
+		}
 		if t.errFunc && len(t.resTypes) == 1 {
 			// every return inside is an error: all-quantifier
 			b := t.stmts(body, "true")
@@ -710,6 +756,7 @@ func (t *tr) fn(spec fnSpec) string {
 		}
 	}
 	t.resTypes = nil
+	namedInit := ""
 	for _, f := range fd.Type.Results.List {
 		n := len(f.Names)
 		if n == 0 {
@@ -718,13 +765,31 @@ func (t *tr) fn(spec fnSpec) string {
 		for i := 0; i < n; i++ {
 			t.resTypes = append(t.resTypes, typeString(f.Type))
 		}
+		// named results are ordinary variables holding their zero value
+		for _, nm := range f.Names {
+			ty := typeString(f.Type)
+			if ty == "error" {
+				continue
+			}
+			t.env[nm.Name] = ty
+			zero := "(0 : Int)"
+			switch {
+			case ty == "bool":
+				zero = "false"
+			case ty == "string" || t.strTypes[ty]:
+				zero = "\"\""
+			case !isIntType(ty):
+				die("named result %s of type %s in %s", nm.Name, ty, spec.key)
+			}
+			namedInit += "let " + li(nm.Name) + " := " + zero + "\n"
+		}
 	}
 	t.errFunc = t.resTypes[len(t.resTypes)-1] == "error"
 	rts := make([]string, len(t.resTypes))
 	for i, r := range t.resTypes {
 		rts[i] = t.leanType(r)
 	}
-	body := t.stmts(fd.Body.List, "")
+	body := namedInit + t.stmts(fd.Body.List, "")
 	return fmt.Sprintf("/-- regenerated from `%s` (%s) -/\ndef %s %s : %s :=\n%s\n",
 		spec.key, filepath.Base(t.fset.Position(fd.Pos()).Filename), spec.name, strings.Join(params, " "), strings.Join(rts, " × "), indent(body))
 }
